@@ -13,20 +13,22 @@ const ID: &str = "C10";
 /// All argument values of the matrix: Empty, v, (v, w) over the pool, (v, w, z) over the small pool
 /// (thorough: a wider sub-pool), in a fixed order.
 pub fn argument_values(tier: Tier) -> Vec<RV> {
-    let pool = pool();
+    let base = pool();
+    // thorough: the 330-value pool for arity 1 and 2, the complete 78-value pool for arity 3
+    let pool = if tier == Tier::Thorough { big_pool() } else { base.clone() };
     let small = match tier {
         Tier::Quick => {
             // small pool plus every third value of the full pool
             let mut s = small_pool();
-            for (i, v) in pool.iter().enumerate() {
+            for (i, v) in base.iter().enumerate() {
                 if i % 3 == 0 && !s.iter().any(|x| x.bits_eq(v)) {
                     s.push(v.clone());
                 }
             }
             s
         },
-        // the complete pool^3
-        Tier::Thorough => pool.clone(),
+        // the complete edge pool^3
+        Tier::Thorough => base.clone(),
     };
     let mut out = vec![RV::Empty];
     out.extend(pool.iter().cloned());
@@ -206,6 +208,55 @@ pub fn run(cfg: &Cfg) -> Report {
             check_case("str::substring", t_sub, &arg2, unit, &mut stats);
         }
     }
+    // scaling families: long tuples and long strings
+    {
+        let tree = |n: &str| trees.iter().find(|t| t.0 == n).unwrap().1.clone();
+        let (t_min, t_max, t_len, t_contains, t_any, t_from, t_sub, t_up, t_low, t_trim, t_typeof) = (
+            tree("min"), tree("max"), tree("len"), tree("contains"), tree("contains_any"), tree("str::from"),
+            tree("str::substring"), tree("str::to_uppercase"), tree("str::to_lowercase"), tree("str::trim"), tree("typeof"),
+        );
+        for n in super::scale::sizes(cfg.tier == Tier::Thorough) {
+            let positions: Vec<usize> = if n <= 20 { (0..n).collect() } else { vec![0, 1, n / 2, n - 2, n - 1] };
+            for &k in &positions {
+                for extreme in [RV::Int(-5), RV::Float(-5.5), RV::Int(1 << 40), RV::Float(1e15)] {
+                    let mut t: Vec<RV> = (0..n).map(|i| if i % 3 == 1 { RV::Float(10.5 + i as f64) } else { RV::Int(10 + i as i64) }).collect();
+                    t[k] = extreme.clone();
+                    let arg = if n == 1 { t[0].clone() } else { RV::Tuple(t) };
+                    check_case("min", &t_min, &arg, unit, &mut stats);
+                    check_case("max", &t_max, &arg, unit, &mut stats);
+                }
+                let hay: Vec<RV> = (0..n).map(|i| if i % 2 == 0 { RV::Int(i as i64) } else { RV::Str(format!("s{}", i)) }).collect();
+                let needle = hay[k].clone();
+                check_case("contains", &t_contains, &RV::Tuple(vec![RV::Tuple(hay.clone()), needle.clone()]), unit, &mut stats);
+                check_case("contains", &t_contains, &RV::Tuple(vec![RV::Tuple(hay.clone()), RV::Int(-1)]), unit, &mut stats);
+                check_case("contains_any", &t_any, &RV::Tuple(vec![RV::Tuple(hay.clone()), RV::Tuple(vec![RV::Int(-1), RV::Str("zz".into()), needle])]), unit, &mut stats);
+                check_case("contains_any", &t_any, &RV::Tuple(vec![RV::Tuple(vec![RV::Int(-1)]), RV::Tuple(hay.clone())]), unit, &mut stats);
+                stats.count("scaling-family-cases");
+            }
+            let tup = RV::Tuple((0..n).map(|i| RV::Int(i as i64)).collect());
+            check_case("len", &t_len, &tup, unit, &mut stats);
+            check_case("str::from", &t_from, &tup, unit, &mut stats);
+            check_case("typeof", &t_typeof, &tup, unit, &mut stats);
+            for text in [
+                "a".repeat(n),
+                "äß".repeat(n),
+                (0..n).map(|i| char::from(b'a' + (i % 26) as u8)).collect::<String>(),
+                format!("{}x{}", " ".repeat(n), "\t".repeat(n)),
+            ] {
+                let sv = RV::Str(text.clone());
+                check_case("len", &t_len, &sv, unit, &mut stats);
+                check_case("str::to_uppercase", &t_up, &sv, unit, &mut stats);
+                check_case("str::to_lowercase", &t_low, &sv, unit, &mut stats);
+                check_case("str::trim", &t_trim, &sv, unit, &mut stats);
+                check_case("str::from", &t_from, &sv, unit, &mut stats);
+                let l = unit_len(&text, unit) as i64;
+                for (i, j) in [(0, l), (0, 0), (l, l), (1, l - 1), (l / 2, l), (0, l + 1), (l / 3, l / 2), (1, 2)] {
+                    check_case("str::substring", &t_sub, &RV::Tuple(vec![sv.clone(), RV::Int(i), RV::Int(j)]), unit, &mut stats);
+                }
+                check_case("str::substring", &t_sub, &RV::Tuple(vec![sv.clone(), RV::Int(l / 2)]), unit, &mut stats);
+            }
+        }
+    }
     stats.sample(json!({"call": "min(x)", "x": RV::Tuple(vec![RV::Float(1e19), RV::Float(2e19)]).to_json(), "reference": reference("min", &RV::Tuple(vec![RV::Float(1e19), RV::Float(2e19)]), unit).describe()}));
     stats.sample(json!({"call": "math::log(x)", "x": RV::Tuple(vec![RV::Int(3), RV::Int(7)]).to_json(), "reference": reference("math::log", &RV::Tuple(vec![RV::Int(3), RV::Int(7)]), unit).describe()}));
     stats.sample(json!({"call": "str::substring(x)", "x": RV::Tuple(vec![RV::Str("äb".into()), RV::Int(1)]).to_json(), "reference": reference("str::substring", &RV::Tuple(vec![RV::Str("äb".into()), RV::Int(1)]), unit).describe()}));
@@ -223,7 +274,7 @@ fn report(_cfg: &Cfg, stats: Stats, nargs: usize, unit: Unit) -> Report {
     Report {
         property: ID,
         level: "exploration",
-        rule: format!("complete matrix: 49 builtin names x {nargs} argument values (Empty; each pool value; every ordered pair of pool values as a 2-tuple; every ordered triple of a sub-pool as a 3-tuple), called as `f(x)` with x bound; plus every index pair (-1..=len+1)^2 of str::substring on four non-ASCII subjects with the len/substring consistency oracle; a case is non-trivial when the reference yields a value (not an error, not unclaimed); each (name, argument) pair is enumerated once"),
+        rule: format!("complete matrix: 49 builtin names x {nargs} argument values (Empty; each pool value; every ordered pair of pool values as a 2-tuple; every ordered triple of a sub-pool as a 3-tuple), called as `f(x)` with x bound; plus every index pair (-1..=len+1)^2 of str::substring on four non-ASCII subjects with the len/substring consistency oracle; plus scaling families (min/max with the extreme at every position of n-tuples, contains/contains_any with the needle at every position, len/str::from/typeof of n-tuples, the str:: functions on strings of n characters, n in 1..20 and up to 129 / 1..40 and up to 400); a case is non-trivial when the reference yields a value (not an error, not unclaimed); each (name, argument) pair is enumerated once"),
         nontrivial_set: "counter:nontrivial-distinct",
         exhaustive: true,
         bound_completed: format!("{nargs} argument values x 49 names; indexing unit inferred from len: {:?}", unit),
